@@ -86,6 +86,38 @@ def search(ctx, focus=(), deep=1):
                     k = next(i for i in range(len(ref)) if got[i] != ref[i])
                     ctx.violation(d.name, 'instances-not-isolated', '%s: activity on a second instance (%s) changes frame %d of instance X: %s instead of %s' % (d.name, mode, k, got[k], ref[k]),
                                   dict(protocol=d.name, mode=mode), input=dict(mode=mode, X=ks[0][0], Y=ks[1][0]))
+            # isolation also holds across SETTINGS: another instance with a different tolerance, fed the same slightly-off
+            # frames, must not change what X makes of them (state shared outside the instance - class-level caches keyed
+            # without the setting - only shows up when the two instances disagree about a window)
+            if fx:
+                base_f = fx[0]
+                seq = [base_f] + [[int(round(x * k)) or (1 if x > 0 else -1) for x in base_f] for k in (1.10, 1.30, 0.93, 0.75)]
+                for xtol, ytol in ((None, 40), (None, 5), (40, None), (5, None)):
+                    def mk(tol):
+                        i_ = protos.fresh(d)
+                        if tol is not None:
+                            i_.tolerance = tol
+                        return i_
+                    solo = mk(xtol)
+                    ref2 = [hc.outcome(protos, solo, f, names, d.frequency) for f in seq]
+                    env.drain_process()
+                    for order in ('y-first', 'alternating'):
+                        X, Y = mk(xtol), mk(ytol)
+                        got2 = []
+                        if order == 'y-first':
+                            for f in seq:
+                                hc.outcome(protos, Y, f, names, d.frequency)
+                        for f in seq:
+                            if order == 'alternating':
+                                hc.outcome(protos, Y, f, names, d.frequency)
+                            got2.append(hc.outcome(protos, X, f, names, d.frequency))
+                        env.drain_process()
+                        ctx.count(('iso-tol', d.name, xtol, ytol, order))
+                        if got2 != ref2:
+                            k = next(i for i in range(len(ref2)) if got2[i] != ref2[i])
+                            ctx.violation(d.name, 'instances-not-isolated', '%s: instance X (tolerance %s) decodes frame variant %d as %s after an instance with tolerance %s saw the same frames (%s); alone: %s' % (
+                                d.name, xtol or 'default', k, got2[k], ytol or 'default', order, ref2[k]), dict(protocol=d.name, mode='tolerance-' + order),
+                                input=dict(mode='tolerance-' + order, X=ks[0][0], xtol=xtol, ytol=ytol, variant=k))
         # (c) repeated encoding
         for p, code in ks[:1]:
             try:
@@ -100,6 +132,32 @@ def search(ctx, focus=(), deep=1):
                     ctx.violation(d.name, 'encode-not-repeatable', '%s.encode(%s) twice: frames equal=%s identity equal=%s' % (d.name, p, same_frames, same_id), dict(protocol=d.name), input=dict(params=p))
             except Exception:
                 pass
+    # fresh-interpreter isolation probes: state kept at class/module level is shared by everything that ran before in THIS
+    # process, so "X alone" and "X after Y" are each run in a process of their own (tools/iso_probe.py)
+    import subprocess, json as _json, os as _os
+    probe = _os.path.join(vlib.VERIF, 'tools', 'iso_probe.py')
+    plist = [n for n in ('NEC', 'Sony12', 'JVC', 'Panasonic', 'RC5', 'Bose') if protos.by_name(n) is not None]
+    plist += [n for n in sorted(focus) if n not in plist][:6]
+
+    def run_probe(name, xtol, ytol, mode):
+        pr = subprocess.run(['/venv/bin/python', probe, name, str(xtol), str(ytol), mode], capture_output=True, text=True, timeout=120,
+                            env=dict(_os.environ, VERIF_REPO=vlib.REPO))
+        for l in pr.stdout.splitlines():
+            if l.startswith('RESULT '):
+                return _json.loads(l[7:])
+        return None
+    for name in plist:
+        for xtol, ytol in (('-', 40), (40, '-')) + ((('-', 5), (5, '-')) if ctx.thorough else ()):
+            a = run_probe(name, xtol, ytol, 'alone')
+            b = run_probe(name, xtol, ytol, 'after-y')
+            if a is None or b is None:
+                ctx.notes.append('isolation probe %s %s/%s did not run' % (name, xtol, ytol))
+                continue
+            ctx.count(('iso-fresh', name, xtol, ytol))
+            if a != b:
+                k = next(i for i in range(len(a)) if a[i] != b[i])
+                ctx.violation(name, 'instances-not-isolated', '%s (fresh interpreter): instance X (tolerance %s) decodes frame variant %d as %s after an instance with tolerance %s saw the same frames; alone: %s' % (
+                    name, xtol, k, b[k], ytol, a[k]), dict(protocol=name, mode='fresh-interpreter'), input=dict(mode='fresh-interpreter', protocol=name, xtol=xtol, ytol=ytol, variant=k))
     ctx.sample({'isolation_modes': ['y-before', 'interleaved', 'y-encode'], 'argument_forms': ['list', 'tuple']})
 
 
